@@ -16,3 +16,5 @@ def run(prog, rep):
     r_valid.run_conditions(prog, rep)
     from ..rules import r_unit as _ru3
     _ru3.run_scaling(prog, rep)
+    from ..rules import r_key as _rkx
+    _rkx.run_handles_only(prog, rep)
